@@ -93,7 +93,8 @@ def plan(ctx):
     pool = fam.examples() + fam.M + fam.Q + fam.MQ
     p1, p2 = fam.prop(1), fam.prop(2)
     special = ['b:La:Lb:MNa', 'LMa:Lb', 'KMaMb:Mc', 'LLMa:LMa:LLb', 'c:Ma:Mb', 'MMa:Ma', 'a:MLa',
-               'Hmm:VxHxm', 'SzHzz:SyVxHxy', 'e:LLa:Mb:Mc:Md:Me', 'e:LLa:Mb:Mc:Md', 'Hnm:VxHxm:Gn']
+               'Hmm:VxHxm', 'SzHzz:SyVxHxy', 'e:LLa:Mb:Mc:Md:Me', 'e:LLa:Mb:Mc:Md', 'Hnm:VxHxm:Gn',
+               'Lc:LKMaLc', 'Mb:LMa:Ma:b']
     units = []
     for name in names:
         if ctx.quick:
@@ -145,7 +146,7 @@ def run(ctx):
         runs=runs, invalid_runs=inv, open_branches_checked=branches, branch_sat_queries=satq,
         branches_beyond_bound=skipped,
         bounds=dict(branch_worlds='<= 4', branch_constants='<= 4',
-                    arguments='35 family + 50 propositional + 12 fixed specials per logic' if ctx.quick
+                    arguments='35 family + 50 propositional + 14 fixed specials per logic' if ctx.quick
                     else 'all family + 550 propositional + 80 random per logic',
                     seeds=2 if ctx.quick else 6, options='default, group optimisation off, rank optimisation off',
                     max_steps=600),
